@@ -1367,6 +1367,11 @@ for _pid in ("C02", "C08"):
         "the parser's AST it returns what the model's classifyRegex returns: the same anchored pattern, the same bind list aligned with "
         "the capture groups (the groups of a user's own expression unnamed), and an error exactly when and of the kind the model says "
         "(empty element, non-regex literal, expression that does not compile, bind used twice, pattern that does not compile).")
+PROPS["C02"]["code_modules"] = PROPS["C02"]["code_modules"] + ["Flamego.Props.C02TreeCode"]
+PROPS["C02"]["level_text"] = PROPS["C02"]["level_text"] + (
+    " And at match time: regexTree.match (tree.go), translated on every run (Gen/RegexTreeCode.lean; the parameter map the method "
+    "stores into is an extra result), is proved in Props/C02TreeCode to answer what the model's treeMatch answers for a regex node: "
+    "every named bind set to the submatch of its own group, the groups of a user's own expression skipped (tree_match_refines).")
 _ALL = ['C01', 'C02', 'C03', 'C04', 'C05', 'C06', 'C07', 'C08', 'C09', 'C10', 'C11', 'C12', 'C13', 'C14', 'C15', 'C16', 'C17', 'C18']
 NOT_APPLICABLE = [
     {"property_id": p, "reason": "check not built yet in this revision (work in progress; see DESIGN.md §11 for the plan)"}
